@@ -502,12 +502,18 @@ def connectionLost (s : St) : St :=
   { s with lost := true, chan := { s.chan with pendingNotify := 0 },
            outs := s.outs ++ (if s.chan.inflight.isSome then notifyOuts (s.chan.nreq - 1) s.chan.pendingNotify false else []) }
 
+/-- the application calls `request.loseConnection()` → `HTTPChannel.loseConnection()` on the request it
+    holds: `transport.loseConnection()`; the request stays in `requests` (it is told about the loss later) -/
+def appClose (s : St) : St :=
+  if s.chan.inflight.isSome then { s with chan := { s.chan with closed := true }, outs := s.outs ++ [.lose] } else s
+
 inductive Op where
   | data (b : Bytes)
   | finish
   | pause
   | resume
   | lose
+  | close     -- the application drops the client: `request.loseConnection()` on the request it holds (C21)
   deriving Repr, DecidableEq
 
 /-- nothing more reaches the protocol -/
@@ -523,6 +529,7 @@ def step (app : App) (s : St) : Op → St
   | .pause => if s.stopped then s else pauseProducing s
   | .resume => if s.stopped then s else resumeProducing s
   | .lose => if s.lost then s else connectionLost s
+  | .close => if s.lost ∨ s.chan.raised.isSome then s else appClose s
 
 def runOps (app : App) (s : St) (ops : List Op) : St := ops.foldl (step app) s
 
@@ -552,7 +559,9 @@ def tpaused : Bool → List Out → Bool
 /-- what the resource does with the k-th request -/
 structure Entry where
   mode : Nat            -- 0 return the body; 1 write the pieces and finish inside render;
-                        -- 2 NOT_DONE_YET, pieces written and finished later; 3 NOT_DONE_YET, never finished
+                        -- 2 NOT_DONE_YET, pieces written and finished later; 3 NOT_DONE_YET, never finished;
+                        -- 4 / 5 `render` raises an `Exception` / a `BaseException` that is not one, after taking
+                        -- its Deferreds and before writing: `server.Request.process` → `processingFailed`
   nf : Nat              -- notifyFinish() calls
   pieces : List Bytes
   deriving Repr, DecidableEq
@@ -598,6 +607,16 @@ def writeAndFinish (req : Req) (pieces : List Bytes) : Bytes :=
     head ++ ((pieces.filter fun p => !p.isEmpty).map fun p => if chunked then toChunk p else p).flatten
       ++ (if chunked then ascii "0" ++ crlf ++ crlf else [])
 
+/-- the body `processingFailed` sends (`Site.displayTracebacks` is off) -/
+def failedBody : Bytes :=
+  ascii "<html><head><title>Processing Failed</title></head><body><b>Processing Failed</b></body></html>"
+
+/-- `server.Request.processingFailed(reason)` on a request that has written nothing yet: 500, the fixed body, `finish()` -/
+def failedResponse (req : Req) : Bytes :=
+  let head := writeHeaders req.version (ascii "500") (ascii "Internal Server Error")
+    (baseHeaders req ++ [ctHeader, (hContentLength, natBytes failedBody.length)])
+  if req.method = mHEAD then head else head ++ failedBody
+
 def siteOnRequest (script : Nat → Entry) (k : Nat) (req : Req) : Bytes × Bool :=
   if pathOf req.uri = [42] then
     -- `_handleStar`
@@ -619,6 +638,7 @@ def siteOnRequest (script : Nat → Entry) (k : Nat) (req : Req) : Bytes × Bool
           (baseHeaders req ++ [(hContentLength, natBytes body.length)] ++ (if body.isEmpty then [] else [ctHeader]))
           ++ body, true)
     else if e.mode = 1 then (writeAndFinish req e.pieces, true)
+    else if e.mode = 4 ∨ e.mode = 5 then (failedResponse req, true)
     else ([], false)
 
 def siteApp (script : Nat → Entry) : App where
